@@ -3,7 +3,7 @@
 Harnesses: ``algebra`` (sums/products/quotients/negation/offset/scaling of uninterpreted functions), ``linear`` (MDOLinearFunction and
 its -f, offset, restrict, normalize, f+-g, c*f), ``quadratic`` (MDOQuadraticFunction), ``restriction`` (FunctionRestriction),
 ``composite`` (LinearCompositeFunction), ``concatenate`` (Concatenate), ``taylor`` (compute_linear/quadratic_approximation),
-``aggregation`` (aggregation/core.py and the aggregate_* wrappers).  All oracles are explicit scalar formulas written here.
+``aggregation`` (aggregation/core.py and the aggregate_* wrappers), ``discipline`` (ConstraintAggregation).  All oracles are explicit scalar formulas written here.
 """
 from __future__ import annotations
 
@@ -21,10 +21,11 @@ META = dict(
               "(m,n) in {(1,2),(2,2),(2,3)}.  linear/restriction/taylor/concatenate/composite: output and input sizes in {1,2,3} (m == n "
               "included), every set of frozen inputs leaving at least one active input (pairs in one non-monotone order), design spaces with "
               "bounded/unbounded/half-bounded/equal-bounds components and symbolic bounds, symbolic coefficients, expansion points, Hessian "
-              "approximations (symmetric symbolic; non-symmetric symbolic for n = 2, one fixed non-symmetric matrix for n = 3), two evaluation "
+              "approximations (symmetric and non-symmetric symbolic, plus one fixed non-symmetric matrix for n = 3), two evaluation "
               "points.  aggregation: m in {2,3} constraints, n in {1,2,3} variables, scale in {absent, symbolic s > 0, 2, vector}, indices in "
               "{None, [1] (m=2), [2,0] (m=3)}, rho in {2, 64, 100}, raw functions of aggregation/core.py (values, total and partial "
-              "Jacobians) and the aggregate_* wrappers on an uninterpreted constraint function",
+              "Jacobians) and the aggregate_* wrappers on an uninterpreted constraint function.  discipline: ConstraintAggregation on one "
+              "symbolic vector constraint of size 2-3, every method, same scales/indices: execute() and linearize() w.r.t. the constraint",
         thorough="same; all depth-2 algebra trees for (m,n) in {1,2,3}^2; frozen pairs in both orders; all 27 (m,k,n) of the vector-valued "
                  "linear composition; more index subsets and (m,1) shapes for the aggregations",
     ),
@@ -34,24 +35,22 @@ META = dict(
              "MDOLinearFunction built with expr=... and without input_names has no input names (restrict then raises IndexError): names are not claimed",
              "ConvexLinearApprox: its docstring gives no formula and the formula pinned by gemseo's own test (reciprocal term c/(x - x0)) is not the "
              "CONLIN approximation of the literature (c (1/x - 1/x0)): no unambiguous definition to check against, left out",
-             "ConstraintAggregation discipline (its partial Jacobians are the compute_partial_* functions checked here; MAX cannot be linearized: "
-             "TypeError, see tools/repro_C10.py)",
+             "ConstraintAggregation discipline: one vector constraint input only (several constraint names declare one output per name but a single "
+             "value is computed), SIMPLE grammar, no cache",
              "compute_quadratic_approximation of a function returning (1,) arrays and (1,n) Jacobians ('must be scalar-valued': number + 1-D gradient only)",
              "sum-of-squares aggregations with a scale: 'scale multiplies the constraints' is ambiguous, sum s_i g_i^2 (the code) and sum (s_i g_i)^2 "
              "are both accepted, the Jacobian must be the derivative of the accepted reading",
              "vector scale shorter/longer than the aggregated subset; non-positive scales; ties of the maximum for the Jacobian of max",
              "KS bounds for rho = 100 (1.0/rho is not exact in float64 and float arithmetic is modelled as exact: only rho = 2, 64); "
              "'IKS <= max' (not documented by gemseo; z3 needs > 10 s): dropped",
-             "total Jacobian of IKS with a vector scale and as many constraints as variables (refuted on the current code by the column/row defect, "
-             "but z3 finds no counterexample within the budget): configuration left out until the defect is repaired",
-             "'operands untouched' for the aggregations is stated for scale absent, 2 and [2,3,1/4] only (with a symbolic scale the refutation on the "
-             "current code is non-linear and z3 answers unknown)"],
+             ],
     stubs=["none for the algebra part",
            "function_restriction.empty -> object-dtype array (value-preserving storage)",
            "aggregation/core.py: math.log -> the engine's uninterpreted log (ground axioms), zeros -> object-dtype zeros",
            "MDOLinearFunction._generate_1d_expr and MDOQuadraticFunction.__build_expression -> constant string in the normalize/taylor harnesses "
            "(pretty-printing forks on the sign of every coefficient; no effect on values)",
-           "design-space bounds written into Variable.__dict__ (harness.common.build_space)"],
+           "design-space bounds written into Variable.__dict__ (harness.common.build_space)",
+           "ConstraintAggregation.default_grammar_type -> SIMPLE (a gemseo option) so that arrays of symbols validate"],
     assumptions=["operand functions are uninterpreted symbols F_i(x), their Jacobians independent symbols dF_ij(x); denominators assumed non-zero",
                  "design-space bounds l < u (or l == u for kind E)",
                  "aggregations: scale > 0; a vector scale has one entry per aggregated constraint (after the selection by indices)",
@@ -495,7 +494,7 @@ def h_taylor(ctx, cfg):
             up = {(i, j): ctx.real(f"H{i}_{j}") for i in range(n) for j in range(i, n)}
             Hel = [[up[(min(i, j), max(i, j))] for j in range(n)] for i in range(n)]
         elif cfg.get("concrete_H"):
-            # a fixed non-symmetric matrix: with a symbolic one z3 does not find the counterexample on the current code for n = 3
+            # a fixed non-symmetric matrix (keeps the refutation of a wrong polynomial cheap for n = 3)
             Hel = [[float(v) for v in r[:n]] for r in ([1, 2, 0], [0, 3, -1], [4, 1, 2])[:n]]
         else:
             Hel = [[ctx.real(f"H{i}_{j}") for j in range(n)] for i in range(n)]
@@ -528,6 +527,9 @@ AGG = {  # method: (value function, total Jacobian, partial Jacobian, public wra
     "ks_lower": ("compute_lower_bound_ks_agg", "compute_total_ks_agg_jac", "compute_partial_ks_agg_jac", "aggregate_lower_bound_ks", "ineq", True),
     "iks": ("compute_iks_agg", "compute_total_iks_agg_jac", "compute_partial_iks_agg_jac", "aggregate_iks", "ineq", True),
 }
+
+
+DISC_METHOD = {"max": "MAX", "sum_square": "SUM", "pos_sum_square": "POS_SUM", "ks_upper": "upper_bound_KS", "ks_lower": "lower_bound_KS", "iks": "IKS"}
 
 
 def _sym(v):
@@ -593,8 +595,7 @@ def h_aggregation(ctx, cfg):
     if has_rho:
         kw["rho"] = float(rho)
     # scale: absent (1.0), a positive number (symbolic, or 2), or a positive vector with one entry per aggregated constraint (symbolic,
-    # or [2, 3, 1/4]).  The "operands untouched" obligations are stated where the scale is concrete: they are refuted on the current
-    # code and z3 does not find the (non-linear) counterexamples within the budget when the scale is symbolic.
+    # or [2, 3, 1/4]; the concrete kinds keep the refutation of a wrong scaling linear, they are used by a few configurations only).
     svec = None
     if skind == "one":
         sc = [1.0] * k
@@ -616,7 +617,7 @@ def h_aggregation(ctx, cfg):
         sc = [2.0, 3.0, 0.25][:k]
         svec = ctx.array(list(sc))
         kw["scale"] = svec
-    untouched = skind in ("one", "scalar_c", "vector_c")
+    untouched = True
 
     log = []
     if api == "func":
@@ -629,6 +630,14 @@ def h_aggregation(ctx, cfg):
     else:
         g = [ctx.real(f"g{i}") for i in range(m)]
         Jg = [[ctx.real(f"J{i}_{j}") for j in range(n)] for i in range(m)]
+    if api == "discipline":  # the ConstraintAggregation discipline on one vector constraint "g"
+        from gemseo.core.discipline import Discipline
+        from gemseo.disciplines.constraint_aggregation import ConstraintAggregation
+
+        ctx.patch(ConstraintAggregation, "default_grammar_type", Discipline.GrammarType.SIMPLE)
+        disc = ConstraintAggregation(["g"], DISC_METHOD[method], **kw)
+        disc.set_cache(Discipline.CacheType.NONE)
+        out_name = f"{DISC_METHOD[method]}_g"
 
     lab = method
     callers = []  # (label, array, expected elements) of the arrays handed over to the code under test
@@ -665,6 +674,10 @@ def h_aggregation(ctx, cfg):
     # ---- value ------------------------------------------------------------------------------------------------
     if api == "func":
         value = agg.evaluate(x)
+    elif api == "discipline":
+        out = disc.execute({"g": vals()})
+        ctx.check(f"{lab}:output name", ctx.true() if out_name in out else ctx.false())
+        value = out[out_name]
     else:
         value = getattr(ac, f_val)(vals(), **kw)
     if not has_rho:  # exp/log are uninterpreted: their values under a solver model are not comparable with float64 runs
@@ -709,7 +722,7 @@ def h_aggregation(ctx, cfg):
         ctx.check(f"{lab}:weights sum to 1", _eq_rat(ctx, sum(w[1:], w[0]), 1.0))
 
     check_untouched("value")
-    if api == "core" and untouched and not has_rho:  # a caller evaluating twice with the same array gets the same result
+    if api == "core":  # a caller evaluating twice with the same array gets the same result
         a = ctx.array(list(g))
         first = elems(getattr(ac, f_val)(a, **kw))
         second = elems(getattr(ac, f_val)(a, **kw))
@@ -728,8 +741,12 @@ def h_aggregation(ctx, cfg):
         partial = None
 
     # ---- Jacobian ---------------------------------------------------------------------------------------------
-    if api == "partial":
-        got = getattr(ac, f_partial)(vals(), **kw)
+    if api in ("partial", "discipline"):
+        if api == "partial":
+            got = getattr(ac, f_partial)(vals(), **kw)
+        else:
+            got = disc.linearize({"g": vals()}, compute_all_jacobians=True)[out_name]["g"]
+            ctx.check(f"{lab}:jacobian block is (1, m)", ctx.true() if np.shape(got) == (1, m) else ctx.false())
         if not has_rho:
             ctx.observe("partial", np.ravel(got))
         ge = elems(got)
@@ -738,7 +755,11 @@ def h_aggregation(ctx, cfg):
             for i in range(m):
                 if i in I:
                     q = I.index(i)
-                    if readings is None:
+                    if method == "max":  # where the maximum is attained once: s_q for that constraint, 0 for the others
+                        for r in range(k):
+                            ctx.check(f"{lab}:partial[{i}] (argmax {r})", ctx.implies(ctx.and_(*[ctx.lt(sg[t], sg[r]) for t in range(k) if t != r]),
+                                                                                   ctx.eq(ge[i], sc[q] if r == q else 0.0)))
+                    elif readings is None:
                         ctx.check(f"{lab}:partial[{i}]", _eq_rat(ctx, ge[i], partial[0][q]))
                     else:
                         ctx.check(f"{lab}:partial[{i}]", ctx.or_(*[ctx.and_(ctx.eq(v, r[0]), ctx.eq(ge[i], pr[q])) for r, pr in zip(readings, partial)]))
@@ -845,7 +866,8 @@ def _transformation_configs(tier):
     for n in (1, 2, 3):  # "the function must be scalar-valued": a function returning a number and a 1-D gradient
         for sym in (True, False):
             if n > 1 or sym:
-                out.append(("taylor", dict(m=1, n=n, order=2, scalar=True, symmetric=sym, concrete_H=(not sym and n == 3))))
+                out.append(("taylor", dict(m=1, n=n, order=2, scalar=True, symmetric=sym)))
+    out.append(("taylor", dict(m=1, n=3, order=2, scalar=True, symmetric=False, concrete_H=True)))
     # aggregations
     subset = {2: [[1]], 3: [[2, 0]]} if not T else {2: [[1], [0]], 3: [[2, 0], [1], [0, 1]]}
     for method, spec in AGG.items():
@@ -856,15 +878,14 @@ def _transformation_configs(tier):
                     continue
                 mn = [(2, 1), (3, 1)] if api == "partial" else [(2, 2), (3, 2), (2, 3), (3, 3)] + ([(2, 1), (3, 1)] if T else [])
                 for (m, n) in mn:
-                    # vector scale: symbolic where the obligations hold on the current code, concrete for the total Jacobians of max/KS/IKS
-                    vec = "vector" if (api == "partial" or method in ("sum_square", "pos_sum_square")) else "vector_c"
-                    for scale in ("one", "scalar", "scalar_c", vec):
+                    for scale in ("one", "scalar", "vector") + (("scalar_c", "vector_c") if (m, n) in ((2, 2), (3, 1)) else ()):
                         for ind in [None] + subset[m]:
-                            if method == "iks" and scale == "vector_c" and len(ind or range(m)) == n:
-                                # the obligations on the total Jacobian are refuted on the current code (vector scale applied to the columns) but z3
-                                # does not find the counterexample within the budget (products of exp terms and Jacobian entries): left out
-                                continue
                             out.append(("aggregation", dict(method=method, m=m, n=n, api=api, scale=scale, indices=ind, rho=rho)))
+        for m in (2, 3):  # the ConstraintAggregation discipline: execute() and linearize() w.r.t. the constraint
+            for scale in ("one", "scalar", "vector"):
+                for ind in [None] + subset[m]:
+                    for rho in ([2.0] + ([64.0, 100.0] if (scale, ind) == ("scalar", None) else []) if spec[5] else [None]):
+                        out.append(("discipline", dict(method=method, m=m, scale=scale, indices=ind, rho=rho)))
         if spec[5]:  # other aggregation parameters: 64 (1/rho exact: bounds checked) and the default 100 (bounds skipped, see META)
             for rho in (64.0, 100.0):
                 for api, (m, n) in (("core", (3, 2)), ("func", (2, 2)), ("partial", (3, 1))):
@@ -875,4 +896,5 @@ def _transformation_configs(tier):
 
 
 HARNESSES = {"algebra": h_algebra, "linear": h_linear, "quadratic": h_quadratic, "restriction": h_restriction, "composite": h_composite,
-             "concatenate": h_concatenate, "taylor": h_taylor, "aggregation": h_aggregation}
+             "concatenate": h_concatenate, "taylor": h_taylor, "aggregation": h_aggregation,
+             "discipline": lambda ctx, cfg: h_aggregation(ctx, dict(cfg, api="discipline", n=1))}
